@@ -106,6 +106,7 @@ type scriptPool struct {
 	sinceReset int
 	gate       chan struct{} // when set, Connect blocks until it is closed
 	entered    chan struct{}
+	slow       time.Duration // every keep-alive takes this long to be answered (counted when it arrives)
 }
 
 func (p *scriptPool) rec(format string, args ...interface{}) {
@@ -149,11 +150,17 @@ func (p *scriptPool) Connect(ctx context.Context, req pool.ConnectRequest) (*poo
 }
 func (p *scriptPool) Update(ctx context.Context, req pool.UpdateRequest) (*pool.UpdateResponse, error) {
 	p.mu.Lock()
-	defer p.mu.Unlock()
 	p.updates++
 	p.sinceReset++
 	p.rec("update:%d", len(req.PeerInfo))
-	if p.failAt > 0 && p.sinceReset == p.failAt {
+	mine, slow := p.sinceReset, p.slow
+	p.mu.Unlock()
+	if slow > 0 {
+		time.Sleep(slow) // a slow pool: the answer takes its time, the agent's schedule must not drift with it
+	}
+	p.mu.Lock()
+	defer p.mu.Unlock()
+	if p.failAt > 0 && mine == p.failAt {
 		return nil, errors.New("scripted keep-alive failure")
 	}
 	if p.updateErr != nil {
@@ -387,7 +394,7 @@ func runAgentLife(args []string) {
 				// leave nothing of the previous trace running
 			}
 			node = &recNode{id: strings.Repeat("f", 128), kind: ethnode.Geth}
-			sp = &scriptPool{}
+			sp = &scriptPool{slow: time.Duration(num(op, "slow")) * time.Second}
 			ag = &agent.Agent{EthNode: node, UpdateInterval: time.Duration(num(op, "interval")) * time.Second}
 			pending, waits, early = nil, nil, nil
 			time.Sleep(time.Millisecond)
